@@ -316,6 +316,9 @@ func outLast() any                               { return nil }
 
 //@ func (*Executor).execArrayIndex
 //@ props C07 C14
+//@ assumes result-list-is-not-the-document: found != nil && is[[]any](value) ==> !sameBase(found.list, as[[]any](value))
+//@ loop 1 invariant [C08 C14] list-apart: found != nil && is[[]any](value) ==> !sameBase(found.list, as[[]any](value))
+//@ loop 2 invariant [C08 C14] list-apart: found != nil && is[[]any](value) ==> !sameBase(found.list, as[[]any](value))
 //@ loop 1 invariant [C09 C14 C07] last-bound: exec.innermostArraySize == size
 //@ loop 1 invariant [C07 C20] no-pending: pendingErr() == nil && !pendingFailed() && resErr == nil && res != statusFailed
 //@ loop 1 invariant status: res == statusOK || res == statusNotFound
@@ -327,6 +330,10 @@ func outLast() any                               { return nil }
 //@ loop 2 invariant status: res == statusOK || res == statusNotFound
 //@ loop 2 invariant [C14] every-element: ncalls(exec.executeNextItem) == loopEntry(ncalls(exec.executeNextItem)) + (index - indexFrom)
 //@ loop 2 decreases indexTo - index + 1
+//@ loop 2 invariant [C08 C14] range-of-this-subscript: indexFrom == callret[int](exec.execSubscript, 0) && indexTo == callret[int](exec.execSubscript, 1) && ncalls(exec.execSubscript) >= 1 && (indexFrom <= indexTo ==> index <= indexTo + 1)
+//@ loop 2 invariant [C08 C14] emitted-in-order: is[[]any](value) && index > indexFrom && array[index-1] != nil ==> ncalls(exec.executeNextItem) >= 1 && callarg[any](exec.executeNextItem, "value") == array[index-1]
+//@ loop 1 invariant [C08 C14] earlier-subscripts-emitted: is[[]any](value) && ncalls(exec.execSubscript) >= 1 && callret[int](exec.execSubscript, 0) <= callret[int](exec.execSubscript, 1) && array[callret[int](exec.execSubscript, 1)] != nil ==> ncalls(exec.executeNextItem) >= 1 && callarg[any](exec.executeNextItem, "value") == array[callret[int](exec.execSubscript, 1)]
+//@ atcall execSubscript assert [C08 C14] items-before-next-subscript: is[[]any](value) && ncalls(exec.execSubscript) >= 1 && callret[int](exec.execSubscript, 0) <= callret[int](exec.execSubscript, 1) && array[callret[int](exec.execSubscript, 1)] != nil ==> ncalls(exec.executeNextItem) >= 1 && callarg[any](exec.executeNextItem, "value") == array[callret[int](exec.execSubscript, 1)]
 //@ atcall executeNextItem assert [C14] element: arg_value == array[index] && arg_found == found
 //@ ensures [C06] exists-mode-result: found == nil ==> r0 == statusFailed || r0 == statusNotFound || (r0 == statusOK && r1 == nil)
 //@ ensures [C07] strict-nonarray: !is[[]any](value) && !exec.path.IsLax() ==> r0 == statusFailed && (r1 == nil || errIs(r1, ErrVerbose)) && ncalls(exec.executeNextItem) == 0
